@@ -108,7 +108,7 @@ def valid_dcsim(c):
 
 def nontrivial_dcsim(case, out):
     """some bytes actually crossed the faulty network or an error was observed"""
-    if len(out) != 42:
+    if len(out) != 44:
         return False
     d0, d1 = out[6:24], out[24:42]
     faults = sum(case[6:10]) > 0 or (case[1] % 3) != 0
@@ -130,7 +130,7 @@ def histogram_dcsim(cases, outs):
             h["panics"] += 1
             continue
         v = [(-int(t[1:], 16) if t.startswith("-") else int(t, 16)) for t in o.split()]
-        if len(v) != 42:
+        if len(v) != 44:
             continue
         for d in (v[6:24], v[24:42]):
             h["read_err"][str(d[11])] = h["read_err"].get(str(d[11]), 0) + 1
